@@ -48,13 +48,13 @@ BAD_MB = {
 
 def hexs(cells):
     if cells is None: return "-"
-    if not cells: return "e"
+    if not cells: return "z"
     return ",".join("%x" % c for c in cells)
 
 
 def unhex(s):
     if s in ("-", None): return None
-    if s == "e": return []
+    if s == "z": return []
     return [int(x, 16) for x in s.split(",")]
 
 
@@ -771,6 +771,7 @@ def run(tier, seed, replay=None):
         if "line" in x:
             res.violations.append(("%s:model-differs" % x["fn"], dict(kind="correspondence", property=PID, sig="%s:model-differs" % x["fn"], detail=x["what"],
                                                                        fn=x["fn"], origin=x.get("origin"), line=x["line"], slack=x["slack"], impl=x["impl"], model=x["model"])))
+    res.violations.sort(key=lambda v: (len(v[1].get("line", "")), v[1].get("line", "")))     # smallest failing input first
     res.extra["signatures_seen"] = {k: v for k, v in sorted(sig_examples.items())}
     res.extra["cases_round0"] = len(base)
     res.extra["libc_model_validation_cases"] = len(libc_cases)
